@@ -71,6 +71,7 @@ def rules(ctx, P, L, exc, suffix=''):
     ctx.rule('C06.11', 'nothing accepted is abandoned: the consumer leaves its drain loop only on an empty queue and examines `quit` only in the outer loop')
     ctx.rule('C06.12', 'same bytes as the synchronous call: where the synchronous entry derives the payload length from the text (strlen) instead of the caller\'s data_size, the threaded entry that queues the same call does so too before it copies the payload into the queue')
     ctx.rule('C06.13', 'all the bits of a sample block are queued: the byte length jls_twr_fsr hands to the queue equals ceil(sample count x entry size / 8) for every accepted entry size and every count residue (set-of-constants evaluation of the length at the send)')
+    ctx.rule('C06.14', 'no samples without a size: jls_twr_fsr reaches its send only with a non-zero cached entry size (evaluated with the size bound to 0: no path may reach msg_send) - a signal that was not defined through this writer has size 0, and a message that announces N samples with an empty payload makes the writer thread copy N samples from whatever follows it in the queue')
     ctx.rule('C06.9', 'flush tickets: flush_send_id is stored only under the message lock, flush_processed_id only under the process lock (or before the thread starts)')
 
     fns = P.fns_in(TW)
@@ -425,6 +426,7 @@ def rules(ctx, P, L, exc, suffix=''):
     drain_rule(ctx, P, 'C06.11')
     size_agreement(ctx, P, 'C06.12')
     sample_bytes_rule(ctx, P, 'C06.13')
+    undefined_size_rule(ctx, P, 'C06.14')
 
 
 def size_agreement(ctx, P, rule):
@@ -531,3 +533,35 @@ def sample_bytes_rule(ctx, P, rule):
                '%d samples of %d bits occupy %d bytes, the queue receives %s: the last partial byte of a sub-byte block is %s' %
                (bad[1], bad[0], bad[3], bad[2], 'lost' if (bad[2] and bad[2][0] is not None and bad[2][0] < bad[3]) else 'not what the caller provided'))
     ctx.floor('msg_send sites of jls_twr_fsr', n, 2)
+
+
+
+def undefined_size_rule(ctx, P, rule):
+    from ..fd import values_at
+    from ..ir import path_of
+    fn = P.fn('jls_twr_fsr')
+    sends = [c for c in fn.calls() if c.callee in ('msg_send', 'msg_send_inner')]
+    size_paths = set()
+    for ev in fn.events():
+        for nd in walk(ev.e or {}):
+            if nd.get('op') == 'sub' and any(m.get('op') == 'member' and m.get('field') == 'fsr_entry_size_bits' for m in walk(nd['k'][0])):
+                p = path_of(nd) or fn.path(nd)
+                if p is not None:
+                    size_paths.add(str(p))
+    for b in fn.blocks.values():
+        for nd in walk(b.cond or {}):
+            if nd.get('op') == 'sub' and any(m.get('op') == 'member' and m.get('field') == 'fsr_entry_size_bits' for m in walk(nd['k'][0])):
+                p = path_of(nd) or fn.path(nd)
+                if p is not None:
+                    size_paths.add(str(p))
+    if len(size_paths) != 1 or not sends:
+        raise AnalysisBroken('jls_twr_fsr: entry size read through %s, %d sends' % (sorted(size_paths), len(sends)))
+    sp = size_paths.pop()
+    count, sig = fn.params[4]['name'], fn.params[1]['name']
+    for sd in sends:
+        reached = set()
+        for cnt in (1, 1000):
+            reached |= values_at(P, fn, sd, sd.args[3], {count: cnt, sp: 0, sig: 1})
+        ctx.ob(rule, not reached, fn.name, '%s() with an unknown entry size' % sd.callee, sd.where(),
+               'not reachable when the cached entry size is 0' if not reached else
+               'with the cached entry size 0 (signal not defined through this writer) the call is accepted and a message of %s payload bytes that announces the caller\'s sample count is queued' % sorted(reached, key=str))
